@@ -1157,13 +1157,14 @@ class SpaceGraph(nx.DiGraph):
 
         while True:
 
-            if basroot in self.get_mro(subroot):
+            # Either root is empty when the shared names reach the top
+            if subroot and basroot and basroot in self.get_mro(subroot):
                 break
 
             if shared_desc:
                 n = shared_desc.pop(0)
-                subroot = ".".join(subroot.split(".") + [n])
-                basroot = ".".join(basroot.split(".") + [n])
+                subroot = subroot + "." + n if subroot else n
+                basroot = basroot + "." + n if basroot else n
             else:
                 raise RuntimeError("must not happen")
 
